@@ -7,11 +7,16 @@
      file (any depth) while no local of that name is in scope (standard Lua lexical scoping - the reference binder
      below). A global has no single declaration: one entry per name is demanded, located at ONE of these
      occurrences (DGlobal, candidates = all of them).
-   * "function (including table members such as t.f and t:m)": the function-valued locals / globals are already
-     covered by the two items above; in addition every function-valued member at depth one, `function b.k`,
-     `function b:k`, `b.k = function ... end`, and the fields `k = function ... end` of a table constructor that is
-     the value of a declaration / assignment of `b` - where `b` is a top-level local or a global (DFunc "b.k",
-     candidates = the identifiers `k` of all such definitions).
+   * "function (including table members such as t.f and t:m)": the function-valued top-level locals / globals are
+     already covered by the two items above; in addition every function-valued member at ANY depth, `function b.k`,
+     `function b:k`, `function b.s.k`, `b.k = function ... end`, and the fields `k = function ... end` of a table
+     constructor (nested constructors included) that is the value of a declaration / assignment of `b` or of a member
+     of `b` - where `b` is a top-level local or a global (DFunc "b.k" / "b.s.k", candidates = the identifiers `k` of all
+     such definitions).  `_G.n = v` assigns the global n and `_G.b.k` is the member b.k of the global b, whatever locals
+     are in scope (unless `_G` itself is bound as a local).
+   * workspace/symbol, "any global or function declared anywhere": every DGlobal and DFunc of every file, and every
+     function-valued `local` declaration (`local function n`, `local n = function ... end`) at ANY nesting depth,
+     each declaration separately (DLocalFn, one declaring identifier; no demand on the outline beyond DLocal).
    An outline covers a declaration iff it has an entry of that name (top-level entry, or child entry for DFunc) whose
    range is well formed (start <= end), lies inside the file and contains one of the candidate identifiers. *)
 From Coq Require Import List NArith ZArith Bool.
@@ -31,20 +36,58 @@ Fixpoint lookup (n : bytes) (e : lenv) : option origin :=
 Inductive occ :=
 | OLocal (n : bytes) (l : loc)                        (* top-level local declaration *)
 | OGlobal (n : bytes) (l : loc)                       (* assignment to a name that is not bound *)
-| OFunc (b k : bytes) (l : loc).                      (* function-valued member b.k of a top-level local / global *)
+| OFunc (b k : bytes) (l : loc)                       (* function-valued member b.k; b = the path of the table: t, t.s, .. *)
+| OLocalFn (n : bytes) (l : loc).                     (* function-valued local declaration, any depth *)
 
 Definition is_efunc (e : exp) : bool := match e with EFunc _ _ _ _ _ _ _ _ => true | _ => false end.
 
-(* fields `k = function` of a table constructor *)
-Fixpoint ctor_funcs (b : bytes) (ks : list (option exp)) (vs : list exp) : list occ :=
-  match ks, vs with
-  | Some (EStr k l) :: ks', v :: vs' => (if is_efunc v then [OFunc b k l] else []) ++ ctor_funcs b ks' vs'
-  | _ :: ks', _ :: vs' => ctor_funcs b ks' vs'
-  | _, _ => []
+Definition member_key (b k : bytes) : bytes := b ++ [46%N] ++ k.
+
+(* fields `k = function` of a table constructor, nested constructors included (fuel: nesting depth) *)
+Fixpoint ctor_funcs (n : nat) (b : bytes) (ks : list (option exp)) (vs : list exp) {struct n} : list occ :=
+  match n with
+  | O => []
+  | S n' =>
+    match ks, vs with
+    | Some (EStr k l) :: ks', v :: vs' =>
+      (if is_efunc v then [OFunc b k l] else []) ++
+      (match v with ETable ks2 vs2 _ => ctor_funcs n' (member_key b k) ks2 vs2 | _ => [] end) ++
+      ctor_funcs n' b ks' vs'
+    | _ :: ks', _ :: vs' => ctor_funcs n' b ks' vs'
+    | _, _ => []
+    end
   end.
 
-Definition ctor_of (b : bytes) (v : option exp) : list occ :=
-  match v with Some (ETable ks vs _) => ctor_funcs b ks vs | _ => [] end.
+Definition ctor_of (n : nat) (b : bytes) (v : option exp) : list occ :=
+  match v with Some (ETable ks vs _) => ctor_funcs n b ks vs | _ => [] end.
+
+(* `base.k1. ... .kn` with string keys: (base, [(k1, l1); ..; (kn, ln)]) *)
+Fixpoint target_path (e : exp) : option (bytes * list (bytes * loc)) :=
+  match e with
+  | EName n _ => Some (n, [])
+  | EIndex p (EStr k l) _ =>
+    match target_path p with Some (b, ks) => Some (b, ks ++ [(k, l)]) | None => None end
+  | _ => None
+  end.
+
+(* the member `b.k1. ... .kn = v` (n >= 1) of the table variable b *)
+Definition member_occ (n : nat) (b : bytes) (ks : list (bytes * loc)) (v : option exp) : list occ :=
+  match rev ks with
+  | [] => []
+  | (k, l) :: rpre =>
+    let pre := fold_left member_key (map fst (rev rpre)) b in
+    (match v with Some fv => if is_efunc fv then [OFunc pre k l] else [] | None => [] end) ++
+    ctor_of n (member_key pre k) v
+  end.
+
+Definition s_G : bytes := [95; 71]%N.                  (* _G *)
+
+(* function-valued names of `local n1, n2 = v1, v2` *)
+Fixpoint local_fn_occs (nms : list bytes) (ls : list loc) (es : list exp) : list occ :=
+  match nms, ls, es with
+  | nm :: nms', l :: ls', e :: es' => (if is_efunc e then [OLocalFn nm l] else []) ++ local_fn_occs nms' ls' es'
+  | _, _, _ => []
+  end.
 
 Definition add_names (ns : list bytes) (o : origin) (e : lenv) : lenv := rev (map (fun n => (n, o)) ns) ++ e.
 
@@ -82,33 +125,39 @@ with occ_stats (n : nat) (top : bool) (env : lenv) (ss : list stat) (ret : optio
       | SLocal nms ls _ es _ =>
         iter_occ ex es ++
         (if top then map (fun nl => OLocal (fst nl) (snd nl)) (combine nms ls) else []) ++
-        (if top then match nms, es with
-                     | [b], [v] => ctor_of b (Some v)
-                     | _, _ => [] end else []) ++
+        (local_fn_occs nms ls es ++
+         (if top then match nms, es with
+                      | [b], [v] => ctor_of n' b (Some v)
+                      | _, _ => [] end else [])) ++
         occ_stats n' top (add_names (map fst (combine nms ls)) here env) ss' ret
       | SLocalFunc nm nl f _ =>
         let env1 := (nm, here) :: env in
-        (if top then [OLocal nm nl] else []) ++ occ_exp n' env1 f ++ occ_stats n' top env1 ss' ret
+        (if top then [OLocal nm nl] else []) ++ (OLocalFn nm nl :: occ_exp n' env1 f) ++ occ_stats n' top env1 ss' ret
       | SAssign vars es _ =>
         iter_occ ex es ++
         iter_occ (fun te =>
                     let t := fst te in
                     let v := snd te in
-                    match t with
-                    | EName nm l =>
-                      match lookup nm env with
-                      | None => OGlobal nm l :: ctor_of nm v
-                      | Some Top => ctor_of nm v
-                      | Some Inner => []
+                    match target_path t with
+                    | Some (nm, []) =>
+                      match t, lookup nm env with
+                      | EName _ l, None => OGlobal nm l :: ctor_of n' nm v
+                      | _, Some Top => ctor_of n' nm v
+                      | _, _ => []
                       end
-                    | EIndex (EName b _) (EStr k l) _ =>
-                      (match lookup b env, v with
-                       | Some Inner, _ => []
-                       | _, Some fv => if is_efunc fv then [OFunc b k l] else []
-                       | _, None => []
-                       end)
-                    | EIndex p k _ => ex p ++ ex k
-                    | _ => []
+                    | Some (b, (k1, l1) :: ks) =>
+                      if beq_bytes b s_G && match lookup b env with None => true | Some _ => false end then
+                        (* the table of globals *)
+                        match ks with
+                        | [] => OGlobal k1 l1 :: ctor_of n' k1 v
+                        | _ => member_occ n' k1 ks v
+                        end
+                      else
+                        match lookup b env with
+                        | Some Inner => []
+                        | _ => member_occ n' b ((k1, l1) :: ks) v
+                        end
+                    | None => match t with EIndex p k _ => ex p ++ ex k | _ => [] end
                     end)
                  (combine vars (map Some es ++ repeat None (length vars))) ++
         occ_stats n' top env ss' ret
@@ -141,10 +190,8 @@ with occ_block (n : nat) (top : bool) (env : lenv) (b : block) {struct n} : list
 Definition occs (fuel : nat) (b : block) : list occ := occ_block fuel true [] b.
 
 (* ------------------------------------------------------------------ declarations *)
-Inductive dkind := DLocal | DGlobal | DFunc.
+Inductive dkind := DLocal | DGlobal | DFunc | DLocalFn.
 Record decl := mkD { d_kind : dkind; d_key : bytes; d_locs : list loc }.
-
-Definition member_key (b k : bytes) : bytes := b ++ [46%N] ++ k.
 
 Fixpoint add_cand (kd : dkind) (key : bytes) (l : loc) (ds : list decl) : list decl :=
   match ds with
@@ -160,6 +207,7 @@ Definition decls_of (os : list occ) : list decl :=
                          | OLocal n l => ds ++ [mkD DLocal n [l]]
                          | OGlobal n l => add_cand DGlobal n l ds
                          | OFunc b k l => add_cand DFunc (member_key b k) l ds
+                         | OLocalFn n l => ds ++ [mkD DLocalFn n [l]]
                          end) os [].
 
 Definition decls_spec (fuel : nat) (b : block) : list decl := decls_of (occs fuel b).
@@ -192,6 +240,7 @@ Definition entry_for (d : decl) (e : entry) : bool :=
   | DLocal => e_local e && negb (e_child e)
   | DGlobal => negb (e_local e) && negb (e_child e)
   | DFunc => e_child e
+  | DLocalFn => false                 (* demanded of workspace/symbol only *)
   end.
 
 Inductive verdict := Covered | Missing | BadRange.
@@ -203,8 +252,10 @@ Definition judge_decl (line_lens : list Z) (es : list entry) (d : decl) : verdic
   | _ => if existsb (fun e => good_range line_lens d (e_range e)) cands then Covered else BadRange
   end.
 
+Definition outline_demand (d : decl) : bool := match d_kind d with DLocalFn => false | _ => true end.
+
 Definition covers (line_lens : list Z) (es : list entry) (ds : list decl) : bool :=
-  forallb (fun d => match judge_decl line_lens es d with Covered => true | _ => false end) ds.
+  forallb (fun d => negb (outline_demand d) || match judge_decl line_lens es d with Covered => true | _ => false end) ds.
 
 (* character counts of the lines of an ASCII file (LF or CRLF line ends) *)
 Fixpoint line_lens_aux (bs : list N) (cur : Z) : list Z :=
